@@ -33,6 +33,19 @@ LEVEL_NOTE = ('Trusted: bvf/decoders.py; the image written by the tool is the re
 def _cases(draw, tier):
     cfg = draw(G.layout_isa(zones=True, blocks=True))
     b, feats = G.general_program(draw, cfg, max_steps=22, extra=['include', 'include', 'probe', 'probe', 'mute', 'local', 'local', 'lprobe', 'lprobe', 'lprobe', 'zonecursor'])
+    lines = [ln for ln in b.lay.lines if ln['has_bytes'] and ln['size'] >= 1 and ln['zone'] == 'GLOBAL' and not ln['muted']]
+    if lines and not b.dead and b.lay.mute == 0 and not b.lay.conds and draw(st.integers(0, 3)) == 0:
+        # the program ends with an origin back into memory that is already filled, where no bytes are placed: a line
+        # without bytes at the very address of an earlier statement, or a label in the middle of one
+        ln = draw(st.sampled_from(lines))
+        if ln['size'] >= 2 and draw(st.booleans()):
+            b.add({'t': 'org', 'e': b.lit(ln['addr'] + draw(st.integers(1, ln['size'] - 1)))})
+            b.add({'t': 'label', 'name': 'tail_mid'})
+            feats.add('ends-with-a-label-inside-an-earlier-line')
+        else:
+            b.add({'t': 'org', 'e': b.lit(ln['addr'])})
+            b.add(draw(st.sampled_from([{'t': 'fill', 'n': ['num', 0, 'dec'], 'v': ['num', 7, 'dec']}, {'t': 'zero', 'n': ['num', 0, 'dec']}])))
+            feats.add('ends-with-a-byte-less-line-at-the-address-of-an-earlier-statement')
     return {'isa': cfg, 'items': b.items, 'lo': b.lo, 'feats': sorted(feats), 'wpick': draw(st.integers(0, 10 ** 6))}
 
 
